@@ -87,6 +87,10 @@ pub fn program(w: &Witness, alive: bool) -> String {
                 }
             }
         }
+        "try_read_ref outlives the context" => {
+            let tail = if alive { format!("    {observe}\n    drop(ctx);\n") } else { format!("    drop(ctx);\n    {observe}\n") };
+            format!("    let referent: {ty} = {ctor};\n    let input = [1u8];\n    let mut ctx = DeserializationContext::new(&input);\n    ctx.state_mut().store_ref(&referent);\n    let any = ctx.try_read_ref().unwrap().unwrap();\n    let got = any.downcast_ref::<{ty}>().unwrap();\n{tail}")
+        }
         // a reference from the object table must not outlive the table
         _ => {
             if alive {
@@ -132,6 +136,7 @@ pub fn all_witnesses() -> Vec<Witness> {
     }
     for referent in ["String", "Vec<u8>", "Box<u64>", "Rc<String>"] {
         v.push(Witness { path: "get_ref_by_id outlives the context".into(), death: "drop".into(), referent: referent.into() });
+        v.push(Witness { path: "try_read_ref outlives the context".into(), death: "drop".into(), referent: referent.into() });
     }
     v
 }
